@@ -423,6 +423,8 @@ func c14Shapes(thorough bool) []dsShape {
 		{Files: 3, Labeled: true, Blocks: "notes", Benches: 1, Units: "ns", Reps: 1, Pattern: "equal"},
 		{Files: 2, Blocks: "ab", Benches: 2, Units: "ns+x", Reps: 1, Pattern: "negative"},
 		{Files: 1, Blocks: "notes", Benches: 3, Units: "ns", Reps: 2, Pattern: "zero"},
+		{Files: 2, Blocks: "a", Benches: 3, Units: "ns", Reps: 5, Pattern: "shifted", MissingFirst: true},
+		{Files: 2, Blocks: "ab", Benches: 2, Units: "ns+B", Reps: 2, Pattern: "shifted", Missing: true, MissingFirst: true},
 	}
 	var all []dsShape
 	for _, files := range []int{1, 2, 3} {
@@ -442,7 +444,7 @@ func c14Shapes(thorough bool) []dsShape {
 									if (reps == 1) != (pat == "equal" || pat == "zero") && units != "ns" {
 										continue
 									}
-									all = append(all, dsShape{files, labeled, blocks, benches, units, reps, pat, missing})
+									all = append(all, dsShape{files, labeled, blocks, benches, units, reps, pat, missing, missing && reps == 5})
 								}
 							}
 						}
